@@ -10,10 +10,13 @@ the way `ClassFile::accept`, `Field::accept`, `Method::accept`, `Code::accept`, 
 Deprecated/Synthetic first, then the known attributes in a fixed order (only those the interests ask for, annotation
 vectors only when non-empty), record components, unknown attributes, fields, methods.
 
+(`ClassInterests.fields` / `.methods` are honoured by `accept` and — since 52da0aa — by the reader alike.)
 Differences from reading that are mirrored as they are in the code:
-* `accept` honours `ClassInterests.fields` / `.methods` (the reader ignores them);
-* `Code::accept` delivers the stack map frames whatever `stack_map_table` says, and the whole local variable table as
-  soon as one of `local_variable_table` / `local_variable_type_table` is set;
+* `Code::accept` keeps one vector of local variable entries and cannot tell which table an empty vector came from: a
+  code visitor interested in one of the two tables is handed `visit_local_variables(vec![])` whenever the vector is
+  empty, the reader calls it only when a table the visitor asked for is present (otherwise — e55a129 — the entries and
+  halves of entries of the tables asked for, like the reader; stack map frames are stripped for a visitor without
+  `stack_map_table` interest by both, 47a6ce7);
 * inside `Code`, type annotations and unknown attributes come after the instructions (the reader delivers them before).
 -/
 
@@ -49,7 +52,7 @@ structure CodeTree where
   insns : List (Option Pay × Nat) := []
   exc : Nat := 0
   lines : Option (List Pay) := none
-  locals : Option (List (Bool × Pay)) := none
+  locals : Option (List LvPart) := none
   slots : Slots := {}
 
 structure MethodTree where
@@ -221,15 +224,21 @@ def acceptFields (cfg : Cfg) : Nat → List FieldTree → List Ev
   | _, [] => []
   | i, t :: ts => acceptField cfg i t ++ acceptFields cfg (i + 1) ts
 
+/-- `Code::accept` on `Some(local_variables)` (e55a129): every entry keeps the halves of the tables the visitor is
+interested in, entries left with neither are dropped; the visitor is called if something is left or the vector was
+empty to begin with -/
+def acceptLocals (i : Nat) (cm : Mask) (p : List LvPart) : List Ev :=
+  if lvNone p || !lvNone (lvProj cm p) then [Ev.codeLocals i (lvProj cm p)] else []
+
 def acceptCode (i : Nat) (mc : MethodCfg) (t : CodeTree) : List Ev :=
   if mc.code then
     match mc.codeV with
     | none => [Ev.codeBegin i]
     | some cm =>
       Ev.codeBegin i :: (match t.maxs with | some h => [Ev.codeMaxs i h] | none => [])
-        ++ t.insns.map (fun x => Ev.codeInsns i x.1 x.2) ++ [Ev.codeExc i t.exc]
+        ++ t.insns.map (fun x => Ev.codeInsns i (if cm .stackMapTable then x.1 else none) x.2) ++ [Ev.codeExc i t.exc]
         ++ (if cm .lineNumberTable then (match t.lines with | some p => [Ev.codeLines i p] | none => []) else [])
-        ++ (if cm .lvt || cm .lvtt then (match t.locals with | some p => [Ev.codeLocals i p] | none => []) else [])
+        ++ (if cm .lvt || cm .lvtt then (match t.locals with | some p => acceptLocals i cm p | none => []) else [])
         ++ emitKinds cm codeOrder (Ev.kAttr i) t.slots ++ emitUnknown cm (Ev.kAttr i) t.slots ++ [Ev.codeEnd i]
   else []
 
@@ -290,11 +299,41 @@ def projA (cfg : Cfg) (e : Ev) : Option Ev :=
   | .mAttr i unk k _ => match methodCfgOfA cfg i with | some mc => keepIf (mc.mask (evBit unk k)) e | none => none
   | .methodFlags i _ _ | .methodEnd i => keepIf (methodCfgOfA cfg i).isSome e
   | .codeBegin i => match methodCfgOfA cfg i with | some mc => keepIf mc.code e | none => none
-  | .codeMaxs i _ | .codeExc i _ | .codeEnd i | .codeInsns i _ _ => keepIf (codeMaskOfA cfg i).isSome e
+  | .codeMaxs i _ | .codeExc i _ | .codeEnd i => keepIf (codeMaskOfA cfg i).isSome e
+  | .codeInsns i fr h =>
+    match codeMaskOfA cfg i with
+    | some cm => some (.codeInsns i (if cm .stackMapTable then fr else none) h)
+    | none => none
   | .kAttr i unk k _ => match codeMaskOfA cfg i with | some cm => keepIf (cm (evBit unk k)) e | none => none
   | .codeLines i _ => match codeMaskOfA cfg i with | some cm => keepIf (cm .lineNumberTable) e | none => none
-  | .codeLocals i _ => match codeMaskOfA cfg i with | some cm => keepIf (cm .lvt || cm .lvtt) e | none => none
+  | .codeLocals i parts =>
+    match codeMaskOfA cfg i with
+    | some cm =>
+      if (cm .lvt || cm .lvtt) && (lvNone parts || !lvNone (lvProj cm parts)) then some (.codeLocals i (lvProj cm parts))
+      else none
+    | none => none
 
+
+/-! ## local variable vectors without entries; trees that hold entries with both halves -/
+
+/-- a local variable event without entries (`visit_local_variables(vec![])`) -/
+def Ev.vacuous : Ev → Bool
+  | .codeLocals _ parts => lvNone parts
+  | _ => false
+
+/-- every local variable event has entries, part by part: what the replay of a tree read from a class whose local
+variable tables all have entries looks like. A vector without entries (`Some(vec![])`) does not say which of the two
+tables was present and empty, so `Code::accept` hands it to every visitor interested in one of them. -/
+def localsHaveEntries (evs : List Ev) : Bool :=
+  evs.all (fun e => match e with
+    | .codeLocals _ parts => !parts.isEmpty && parts.all (fun x => x.2.sum != 0)
+    | _ => true)
+
+/-- the tree with a `descriptor` and a `signature` in every local variable entry (what merging the two tables by hand
+gives; the reader never builds such a tree) -/
+def ClassTree.bothHalves (t : ClassTree) : ClassTree :=
+  { t with methods := t.methods.map (fun m =>
+      { m with code := m.code.map (fun k => { k with locals := k.locals.map (fun p => p.map (fun x => (LvK.both, x.2))) }) }) }
 
 /-! ## per item and kind, what an event sequence says (the digest a tree keeps of it) -/
 
@@ -332,7 +371,7 @@ def Ev.items : Ev → List (List Nat)
   | .classEnd | .recEnd _ | .fieldEnd _ | .methodEnd _ | .codeBegin _ | .codeEnd _ => [[]]
   | .codeInsns _ fr h => [h :: (fr.getD [])]
   | .codeLines _ parts => parts
-  | .codeLocals _ parts => parts.map (fun x => x.1.toNat :: x.2)
+  | .codeLocals _ parts => (parts.filter (fun x => x.2.sum != 0)).map (fun x => x.1.ctorIdx :: x.2)
 
 def digestAdd (d : List ((Nat × Nat × Nat × Nat) × List (List Nat))) (e : Ev) :
     List ((Nat × Nat × Nat × Nat) × List (List Nat)) :=
